@@ -28,7 +28,7 @@ SEEDED = os.path.join(VERIF, "seeded")
 ALSO = {
     "C02_a": ["C17"], "C03_a": ["C07"], "C04_a": ["C12"], "C12_a": ["C04"], "C08_a": ["C02"], "C16_a": ["C06"],
     "C03_b": ["C02", "C06"], "C06_b": ["C16"], "C08_b": ["C07"], "C12_b": ["C02"], "C13_b": ["C09"], "C14_b": ["C13"], "C19_b": ["C07"],
-    "C17_a": ["C02"], "C01_c": ["C10"], "C07_e": ["C10"], "C12_e": ["C02"], "C17_e": ["C02"], "C16_e": ["C01"], "C05_e": ["C09"], "C19_d": ["C06"], "C18_d": ["C09"], "C13_d": ["C09"], "C03_d": ["C07"], "C06_d": ["C16"], "C02_d": ["C08"], "C09_c": ["C07"], "C10_c": ["C07"], "C11_c": ["C06"], "C04_c": ["C06", "C08"], "C02_c": ["C12"],
+    "C17_a": ["C02"], "C01_c": ["C10"], "C03_f": ["C07"], "C08_f": ["C01"], "C01_f": ["C19"], "C07_e": ["C10"], "C12_e": ["C02"], "C17_e": ["C02"], "C16_e": ["C01"], "C05_e": ["C09"], "C19_d": ["C06"], "C18_d": ["C09"], "C13_d": ["C09"], "C03_d": ["C07"], "C06_d": ["C16"], "C02_d": ["C08"], "C09_c": ["C07"], "C10_c": ["C07"], "C11_c": ["C06"], "C04_c": ["C06", "C08"], "C02_c": ["C12"],
 }
 
 
